@@ -2,6 +2,7 @@ package main
 
 import (
 	"fmt"
+	"reflect"
 	"sort"
 	"strings"
 
@@ -19,7 +20,70 @@ func init() {
 		m0, cs := sb.CountPrefixes(a[1].I32(), a[2].I32(), a[3].I32())
 		return L(I32(m0), I32s(cs))
 	}
+	// New(keys).CountPrefixes(s, s+1, m): a range of one key
+	Exec["sigbits.CountPrefixes/single"] = func(a []V) string {
+		sb := sigbits.New(a[0].Strs())
+		st := a[1].I32()
+		m0, cs := sb.CountPrefixes(st, st+1, a[2].I32())
+		return L(I32(m0), I32s(cs))
+	}
+	// keys = prefix + w-byte big-endian counter c0..c0+n-1; New(keys).CountPrefixes(s, e, m)
+	counter := func(a []V) string {
+		keys := c16CounterKeys(a[0].Str(), a[1].Int(), a[2].I64(), a[3].Int())
+		sb := sigbits.New(keys)
+		m0, cs := sb.CountPrefixes(a[4].I32(), a[5].I32(), a[6].I32())
+		return L(I32(m0), I32s(cs))
+	}
+	Exec["sigbits.CountPrefixes/counter"] = counter
+	Exec["sigbits.CountPrefixes/counter-big"] = counter
+	// ONE SigBits object, a list of [s,e,m] queries on it; then whether the differences it holds are
+	// still FirstDiffBits(keys) (1 also when the object no longer has such a field: a representation
+	// change is not a finding)
+	Exec["sigbits.SigBits/queries"] = func(a []V) string {
+		keys := a[0].Strs()
+		sb := sigbits.New(keys)
+		var rs []string
+		for _, q := range a[1].L {
+			m0, cs := sb.CountPrefixes(q.L[0].I32(), q.L[1].I32(), q.L[2].I32())
+			rs = append(rs, L(I32(m0), I32s(cs)))
+		}
+		return L(L(rs...), B(c16HeldStateOK(sb, keys)))
+	}
 	Register("C16", genC16)
+}
+
+// c16CounterKeys builds prefix + big-endian w-byte counter for c0 <= c < c0+n.
+func c16CounterKeys(prefix string, w int, c0 int64, n int) []string {
+	keys := make([]string, n)
+	for i := 0; i < n; i++ {
+		c := c0 + int64(i)
+		b := make([]byte, w)
+		for j := w - 1; j >= 0; j-- {
+			b[j] = byte(c)
+			c >>= 8
+		}
+		keys[i] = prefix + string(b)
+	}
+	return keys
+}
+
+// c16HeldStateOK reads the unexported []int32 field "sigbits" of the object by reflection (reading only)
+// and compares it with a fresh FirstDiffBits(keys).
+func c16HeldStateOK(sb *sigbits.SigBits, keys []string) bool {
+	f := reflect.ValueOf(sb).Elem().FieldByName("sigbits")
+	if !f.IsValid() || f.Kind() != reflect.Slice || f.Type().Elem().Kind() != reflect.Int32 {
+		return true
+	}
+	want := sigbits.FirstDiffBits(keys)
+	if f.Len() != len(want) {
+		return false
+	}
+	for i := range want {
+		if int32(f.Index(i).Int()) != want[i] {
+			return false
+		}
+	}
+	return true
 }
 
 // c16SortDedup returns the strictly ascending (Go string order) version of keys.
@@ -218,6 +282,123 @@ func genC16(g *Gen) {
 		g.Do("sigbits.CountPrefixes", L(Strs(keys), Int(s), Int(e), Int(m)), key)
 	}
 
+	// (0) ONE SigBits object, several queries (early in the run): the same query twice, overlapping and nested
+	// ranges, ranges whose smallest first difference is > 0 (an in-place "d -= min" on the held slice shows on
+	// the next query), the whole range last
+	queries := func(keys []string, qs [][3]int, bucket string) {
+		g.Stat(bucket)
+		var qt []string
+		for _, q := range qs {
+			qt = append(qt, L(Int(q[0]), Int(q[1]), Int(q[2])))
+		}
+		key := ""
+		if len(qs) >= 2 {
+			rep, ovl := 0, 0
+			for i := 1; i < len(qs); i++ {
+				for j := 0; j < i; j++ {
+					if qs[i][0] == qs[j][0] && qs[i][1] == qs[j][1] {
+						rep = 1
+					} else if qs[i][0] < qs[j][1]-1 && qs[j][0] < qs[i][1]-1 {
+						ovl = 1
+					}
+				}
+			}
+			key = fmt.Sprintf("q/n%d/rep%d/ovl%d/k%d", c16Bucket(len(qs), 2, 3, 6), rep, ovl, c16Bucket(len(keys), 2, 3, 5, 12))
+		}
+		g.Do("sigbits.SigBits/queries", L(Strs(keys), L(qt...)), key)
+	}
+	{
+		// every pair of queries (incl. twice the same) over every 2..3-key subset of a 6-string universe, m in {1,9}
+		uni := c16SortDedup([]string{"", "a", "a\x00", "ab", "b", "b\x80"})
+		for mask := 0; mask < 1<<uint(len(uni)); mask++ {
+			var ks []string
+			for i := range uni {
+				if mask>>uint(i)&1 == 1 {
+					ks = append(ks, uni[i])
+				}
+			}
+			if len(ks) < 2 || len(ks) > 3 {
+				continue
+			}
+			var rg [][2]int
+			for s := 0; s < len(ks); s++ {
+				for e := s + 2; e <= len(ks); e++ {
+					rg = append(rg, [2]int{s, e})
+				}
+			}
+			for _, r1 := range rg {
+				for _, r2 := range rg {
+					for _, m := range []int{1, 9} {
+						queries(ks, [][3]int{{r1[0], r1[1], m}, {r2[0], r2[1], m}}, "exh-queries")
+					}
+				}
+			}
+		}
+		g.Exhaust = append(g.Exhaust, "SigBits/queries: all ordered pairs of ranges (incl. the same twice) on every 2..3-key subset of {'',a,a00,ab,b,b80}, m in {1,9}")
+		for k := 0; k < g.N(150, 3000); k++ {
+			keys, desc := c16KeySet(g.R, g.R.Range(3, 14))
+			if len(keys) < 2 {
+				continue
+			}
+			nq := g.R.Range(2, 7)
+			var qs [][3]int
+			for q := 0; q < nq; q++ {
+				s := g.R.Intn(len(keys) - 1)
+				e := g.R.Range(s+2, len(keys))
+				m := g.R.Pick(1, 2, 8, 9, 40)
+				if q > 0 {
+					switch g.R.Intn(4) {
+					case 0: // the same query again
+						p := qs[g.R.Intn(len(qs))]
+						s, e, m = p[0], p[1], p[2]
+					case 1: // the same range, another m
+						p := qs[g.R.Intn(len(qs))]
+						s, e = p[0], p[1]
+					case 2: // the whole range
+						s, e = 0, len(keys)
+					}
+				}
+				qs = append(qs, [3]int{s, e, m})
+			}
+			queries(keys, qs, "rand-queries/"+desc[:strings.Index(desc, "/")])
+		}
+	}
+	// (0b) LARGE key sets: prefix + big-endian counter, so that hundreds (thorough: > 65536) of adjacent pairs share
+	// one first-difference bit and a counter passes 2^8 (2^16): a narrow histogram / counter type shows
+	{
+		type big struct {
+			p          string
+			w          int
+			c0         int64
+			n, s, e, m int
+		}
+		cases := []big{
+			{"k", 2, 0, 512, 0, 512, 10},         // 256 pairs differ in the last bit
+			{"k", 2, 0, 600, 0, 600, 12},         // 300 pairs
+			{"", 2, 256, 520, 3, 519, 16},        // sub-range, no prefix
+			{"key\x00", 2, 1000, 700, 0, 700, 9}, // the bucket of the last bit is outside m: guard
+			{"k", 2, 0, 300, 0, 300, 1},
+		}
+		if g.Thorough {
+			cases = append(cases, big{"k", 2, 0, 1000, 0, 1000, 12}, big{"ab", 3, 65000, 1024, 1, 1024, 20},
+				big{"k", 2, 0, 1024, 512, 1024, 11})
+		}
+		for _, c := range cases {
+			g.Stat("counter-keys")
+			g.Do("sigbits.CountPrefixes/counter", L(Str(c.p), Int(c.w), I(c.c0), Int(c.n), Int(c.s), Int(c.e), Int(c.m)),
+				fmt.Sprintf("ctr/n%d/s%d/m%d", c16Bucket(c.n, 300, 512, 600, 1000), c16B2i(c.s > 0), c16Bucket(c.m, 1, 9, 12, 20)))
+		}
+		bigs := []big{{"k", 2, 0, 4096, 0, 4096, 14}} // 2048 pairs in the last bit (linear oracle)
+		if g.Thorough {
+			bigs = append(bigs, big{"k", 3, 0, 131072 + 5, 0, 131072 + 5, 20}, // 65538 pairs in the last bit
+				big{"", 3, 1 << 20, 140000, 7, 139999, 19})
+		}
+		for _, c := range bigs {
+			g.Stat("counter-keys-big")
+			g.Do("sigbits.CountPrefixes/counter-big", L(Str(c.p), Int(c.w), I(c.c0), Int(c.n), Int(c.s), Int(c.e), Int(c.m)),
+				fmt.Sprintf("ctrbig/n%d/s%d", c16Bucket(c.n, 4096, 140000), c16B2i(c.s > 0)))
+		}
+	}
 	// (1) FirstDiffBits on ALL ordered pairs of strings of length 0..2 over {00,01,80,ff,'a'}
 	{
 		al := []byte{0x00, 0x01, 0x80, 0xff, 'a'}
@@ -296,6 +477,52 @@ func genC16(g *Gen) {
 		}
 		g.Exhaust = append(g.Exhaust, "CountPrefixes: all 2..4-key subsets of {'',00,a,a00,ab,b,b80} x all sub-ranges [s,e) x m in {1,2,8,9,40}")
 	}
+	// (4a) single-key ranges: every key of every 1..3-key subset of the universe x m in {1,2,9}
+	{
+		uni := c16SortDedup([]string{"", "\x00", "a", "a\x00", "ab", "b", "b\x80"})
+		for mask := 1; mask < 1<<uint(len(uni)); mask++ {
+			var ks []string
+			for i := range uni {
+				if mask>>uint(i)&1 == 1 {
+					ks = append(ks, uni[i])
+				}
+			}
+			if len(ks) > 3 {
+				continue
+			}
+			for s := 0; s < len(ks); s++ {
+				for _, m := range []int{1, 2, 9} {
+					g.Stat("exh-cp-single")
+					key := ""
+					if len(ks) >= 2 && m >= 2 {
+						key = fmt.Sprintf("cp1/s%d/e%d/m%d", c16B2i(s > 0), c16B2i(s+1 < len(ks)), m)
+					}
+					g.Do("sigbits.CountPrefixes/single", L(Strs(ks), Int(s), Int(m)), key)
+				}
+			}
+		}
+		g.Exhaust = append(g.Exhaust, "CountPrefixes/single: all 1..3-key subsets of {'',00,a,a00,ab,b,b80} x every key x m in {1,2,9}")
+	}
+	// (4b) long shared prefixes: every first-difference bit is far above 2^15 (quick) / 2^17 (thorough), so a
+	// too-small initial value of the running minimum or a 16-bit intermediate shows; keys end on / off a chunk edge
+	{
+		plens := []int{4100, 8200} // 32800 and 65600 bits: above int16 / uint16
+		if g.Thorough {
+			plens = append(plens, 4096, 20001)
+		}
+		for _, pl := range plens {
+			p := string(g.R.Bytes(pl, []byte{'a', 'b', 0x00}))
+			ks := c16SortDedup([]string{p, p + "\x00", p + "a", p + "a\x00\x00", p + "b"})
+			fdb(ks, "long-prefix")
+			cp(ks, 0, len(ks), 9, "long-prefix")
+			cp(ks, 1, 4, 2, "long-prefix")
+			cp(ks, 2, 5, 40, "long-prefix")
+		}
+		// many counters: m above 2^8 (a narrow loop variable or length)
+		small := c16SortDedup([]string{"", "a", "a\x00", "ab\x01", "b"})
+		cp(small, 0, len(small), 300, "large-m")
+		cp(small, 1, 4, 1000, "large-m")
+	}
 	// (5) structured random key sets: FirstDiffBits on the sorted set and on a shuffled copy,
 	// CountPrefixes on all sub-ranges (small sets) or random sub-ranges x the m list
 	nb := g.N(700, 14000)
@@ -319,6 +546,16 @@ func genC16(g *Gen) {
 				sh = append(sh, sh[g.R.Intn(len(sh))]) // a repeated key
 			}
 			fdb(sh, "rand-fdb-unsorted")
+		}
+		if g.R.Intn(4) == 0 { // a single-key range somewhere in a random set
+			st := g.R.Intn(len(keys))
+			m := g.R.Pick(1, 2, 8, 9, 40, 64, 65)
+			g.Stat("rand-cp-single")
+			key := ""
+			if len(keys) >= 2 && m >= 2 {
+				key = fmt.Sprintf("cp1/s%d/e%d/m%d", c16B2i(st > 0), c16B2i(st+1 < len(keys)), c16Bucket(m, 2, 8, 9, 40, 64))
+			}
+			g.Do("sigbits.CountPrefixes/single", L(Strs(keys), Int(st), Int(m)), key)
 		}
 		if len(keys) < 2 {
 			continue
